@@ -62,7 +62,11 @@ def _judge_dist(c, drv, got):
             large = bool(np.all(g[bad] > want[bad]))
             cls = 'too-small' if small else 'too-large' if large else 'wrong'
             i = int(bad[0])
-            out.append(dict(kind='property', key=f'distance:{nd}:{cls}',
+            key = f'distance:{nd}:{cls}'
+            if max(c['shape']) >= 46342:
+                # `dist_transform` squares coordinates in 32-bit `int`: 46341**2 > 2**31 - 1 (its own input class)
+                key = 'distance:int32-overflow-axis>=46342'
+            out.append(dict(kind='property', key=key,
                             detail=dict(pixel=[int(x) for x in np.unravel_index(i, c['shape'])], got=float(g[i]),
                                         spec=float(want[i]), nbad=int(bad.size))))
     if not out and not eucl and model is not None:
